@@ -1,11 +1,17 @@
 ENGINES = [
- {"name": "evysim-L1", "path": "harness/vdrv", "serves_properties": ["C14"], "kind_free_text": "deterministic simulation: real lexer/parser/evaluator under a simulated platform (effects, scripted input, virtual clock, numbered fault points), seeded scheduler, explicit JSON scenarios as replay files, ddmin minimiser, worker OS processes"},
+ {"name": "evysim-L1", "path": "harness/vdrv", "serves_properties": ["C08", "C14"], "kind_free_text": "deterministic simulation: real lexer/parser/evaluator under a simulated platform (effects, scripted input, virtual clock, numbered fault points), seeded scheduler, explicit JSON scenarios as replay files, ddmin minimiser, worker OS processes"},
  {"name": "xform", "path": "xform", "serves_properties": ["C14"], "kind_free_text": "go/packages source rewriter that inserts the seams into a scratch copy of /repo"},
 ]
 NOTES = "Fix commits in /repo: see known_findings.json. Properties whose check is not built yet are listed under not_applicable with reason 'check under construction'."
-PENDING.update({p: "check under construction in this session (claimed in DESIGN.md; will move to checks once its driver is committed)" for p in ["C02", "C08", "C15", "C18", "C20"]})
+PENDING.update({p: "check under construction in this session (claimed in DESIGN.md; will move to checks once its driver is committed)" for p in ["C02", "C15", "C18", "C20"]})
 claim("C14", "fault_enumeration",
  "For every program of the workload the stop flag is raised inside every fault point of its run (each Yield, Sleep, Read poll and idle moment; exhaustively for runs up to the tier's limit, sampled beyond) and the interrupted run is compared with the uninterrupted one: result is 'stopped', nothing is evaluated and no effect happens after the raise (only the test summary), effects before it are a prefix. Probe programs with statically known trip/call counts decide 'yields at least once per iteration and call'. Sampling over programs, exhaustive over crash points of each sampled program.",
  "The platform raises Stopped only while it has control (Yield, Sleep, blocked Read, idle). SimPlatform is a stub of the browser; the event loop of pkg/wasm is mirrored by the driver at this level.",
  "deterministic simulation, stop-fault enumeration at every yield point, prefix oracle vs uninterrupted run",
  "DESIGN.md §5.3", "evysim-L1")
+
+claim("C08", "exploration",
+ "Seeded search over schedules: every (source, inputs, events, rand seed) case is executed under K schedules that decide the iteration order of every range-over-map statement in the evy sources (ascending, descending, rotations, seeded shuffles, single-site flips), the virtual clock epoch, the seed of the global math/rand source and the heap layout; parse errors, formatted text, effect trace and final result must be byte-identical. Any disagreement is a violation by the property's own wording; the minimiser reduces it to plain-ascending vs. one flipped range statement. A cross-process layer repeats a sample natively (unrewritten tree, fresh processes, GOMAXPROCS 1/4/16) as a net under the seams.",
+ "Determinism of the harness itself (self-test). Order of EventHandlerNames/CalledBuiltinFuncs is not an observable. Map types whose keys have no canonical order would be 'uncontrolled sites' (none exists today).",
+ "deterministic simulation with a map-iteration-order scheduler seam, schedule-independence oracle",
+ "DESIGN.md §5.2", "evysim-L1")
